@@ -39,7 +39,9 @@ fn main() {
     let outcome = plan[kind].get(n).and_then(Value::as_str).unwrap_or("ok").to_string();
     // for pack build: what is in the app directory that was passed (the private copy is gone later)
     let listing: Vec<String> = if kind == "pack-build" {
-        a.iter().position(|x| *x == "--path").and_then(|i| a.get(i + 1)).and_then(|p| std::fs::read_dir(p).ok())
+        a.iter().position(|x| *x == "--path" || *x == "-p").and_then(|i| a.get(i + 1)).copied()
+            .or_else(|| a.iter().find_map(|x| x.strip_prefix("--path=")))
+            .and_then(|p| std::fs::read_dir(p).ok())
             .map(|rd| { let mut v: Vec<String> = rd.flatten().map(|e| e.file_name().to_string_lossy().to_string()).collect(); v.sort(); v }).unwrap_or_default()
     } else { vec![] };
     // for pack build: what every --buildpack argument that is a directory holds at this moment
@@ -58,8 +60,9 @@ fn main() {
                    "detect": std::fs::read_link(p.join("bin/detect")).ok().map(|t| t.to_string_lossy().to_string())})
         };
         for (i, x) in a.iter().enumerate() {
-            if *x == "--buildpack" {
-                if let Some(v) = a.get(i + 1) {
+            let value = if *x == "--buildpack" || *x == "-b" { a.get(i + 1).copied() } else { x.strip_prefix("--buildpack=") };
+            {
+                if let Some(v) = value.as_ref() {
                     let p = std::path::Path::new(v);
                     if p.is_absolute() && p.is_dir() {
                         let mut d = describe(p);
